@@ -11,6 +11,26 @@ func init() {
 		"Same runs as C01 with attributable payload bytes (a function of rpc, direction, message index, offset): the tap re-assembles each stream's DATA into gRPC messages and compares every byte, message length and message count with what the application submitted; END_STREAM exactly once, no DATA/HEADERS after own END_STREAM or RST_STREAM; under cancellation, resets, cuts and server stop a stream may end at any prefix but never skip, repeat or reorder.",
 		"Trusted: as C01. Completeness is asserted for streams that ended normally (END_STREAM without RST).",
 		"wire-tap per-stream byte ledger with attributable payloads"))
+	regProp("C09", we().doc(
+		"Real client and server over simnet; generated metadata maps (legal key alphabet, mixed case via AppendToOutgoingContext, multi-values, empty values, -bin values with arbitrary bytes, values large enough to need CONTINUATION) on many concurrent RPCs so HPACK state is shared across interleaved header blocks, reserved names and invalid pairs inside user metadata; oracle: handler's incoming metadata equals the client's per key and order, client Header()/Trailer() equal what the handler set, nothing user-supplied travels under a reserved name (wire tap), invalid metadata fails INTERNAL with no HEADERS on the wire.",
+		"Input-dominated: the simulation contributes concurrency (shared HPACK tables), segmentation and faults; base64 padding variants from a foreign peer need the scripted peer. content-type is surfaced to handlers by grpc-go and is accepted as transport-added.",
+		"end-to-end metadata equality + reserved-name wire filter"))
+	regProp("C10", we().doc(
+		"Real client and server; handler returns every code 0..16 and out-of-range codes, messages with arbitrary bytes (invalid UTF-8, %, control characters, 20 KB), 0..3 detail protos, with and without response data (trailers-only); oracle in fault-free runs: client status == handler status (code, message with invalid UTF-8 -> U+FFFD, details); with faults/cancel/deadline racing: exactly that or a locally generated code, never a foreign status and never OK for a non-OK handler result.",
+		"The allowed local codes under faults are CANCELLED, DEADLINE_EXCEEDED, UNAVAILABLE, INTERNAL.",
+		"end-to-end status equality with fault-relaxed oracle"))
+	regProp("C22", we().doc(
+		"RPCs with deadlines from 1 ns to 48 h (virtual time) and cancellations at random instants, blocked by construction at each blocking point (receive, stream quota via MaxConcurrentStreams, flow control via a handler that never reads, picking via dial hang/fail); oracle at quiescence: client op returned no later than deadline+10 ms (virtual), status after the deadline is DEADLINE_EXCEEDED, handler context deadline is never earlier than the client's absolute deadline, handler contexts waiting for cancellation are released in fault-free runs.",
+		"10 ms of virtual slack covers the runtime's injected spin sleeps; 'bounded time' in the statement is interpreted as that slack.",
+		"virtual-time deadline oracle at every blocking point"))
+	regProp("C24", we().doc(
+		"Every error returned by NewStream/SendMsg/RecvMsg in runs with all network fault kinds, dial failures, server Stop/GracefulStop and size limits must carry a gRPC status (status.FromError ok); io.EOF excepted.",
+		"The A54 clause (reserved codes from pickers/config selectors/credentials surface as INTERNAL) is covered by the C23 harness policy runs.",
+		"status.FromError on every API error under fault injection"))
+	regProp("C53", we("tracking mem.BufferPool installed on both endpoints").doc(
+		"A tracking BufferPool (never reuses memory, poisons on Put, detects double Put by identity) is installed in client and server; after both endpoints are closed and the bubble is quiescent every buffer obtained must have been returned exactly once; poisoning turns use-after-free into payload mismatches caught by the byte ledger and the receive-payload oracle; faults: cancel, reset, cut at arbitrary byte, half-close, blackhole, Stop/GracefulStop.",
+		"Only buffers that flow through the configured pool are tracked. The mem package API clauses (Ref/Slice/split/Reader) are checked in the primitives world.",
+		"tracking buffer pool: exactly-once Put, poison, leak check at teardown"))
 }
 
 func we(real ...string) *Prop {
